@@ -201,9 +201,18 @@ Proof. intros E. induction l as [|h t IH]; cbn [map existsb]; auto. now rewrite 
 
 Definition cf_view (st : state) := (killed st, box st, rds st).
 
+(* can_fetch as a function of what it reads: killed, the box, the waiting/drive fields *)
+Definition wb (b : list (nat * msg)) (r : reader) : bool :=
+  match r_waiting r with Some x => has_msg b x | None => false end.
+Definition cf (k : bool) (b : list (nat * msg)) (l : list reader) : bool :=
+  if k then true else if existsb (wb b) l then false else existsb drives l.
+
+Lemma can_fetch_cf st : can_fetch st = cf (killed st) (box st) (rds st).
+Proof. reflexivity. Qed.
+
 Lemma can_fetch_view st st' :
   killed st' = killed st -> box st' = box st -> rds st' = rds st -> can_fetch st' = can_fetch st.
-Proof. unfold can_fetch. intros -> -> ->. reflexivity. Qed.
+Proof. rewrite !can_fetch_cf. intros -> -> ->. reflexivity. Qed.
 
 Lemma can_fetch_upd st st' i r r' :
   killed st' = killed st -> box st' = box st ->
@@ -211,24 +220,24 @@ Lemma can_fetch_upd st st' i r r' :
   r_waiting r' = r_waiting r -> r_drive r' = r_drive r ->
   can_fetch st' = can_fetch st.
 Proof.
-  unfold can_fetch. intros -> -> Hi -> Hw Hd.
+  rewrite !can_fetch_cf. intros -> -> Hi -> Hw Hd. unfold cf.
   destruct (killed st); auto.
-  assert (E1 : forall lo, existsb (waits_le lo) (upd i r' (rds st)) = existsb (waits_le lo) (rds st)).
-  { intros lo. eapply existsb_upd_same; eauto. unfold waits_le. now rewrite Hw. }
+  assert (E1 : existsb (wb (box st)) (upd i r' (rds st)) = existsb (wb (box st)) (rds st)).
+  { eapply existsb_upd_same; eauto. unfold wb. now rewrite Hw. }
   assert (E2 : existsb drives (upd i r' (rds st)) = existsb drives (rds st)).
   { eapply existsb_upd_same; eauto. unfold drives. now rewrite Hw, Hd. }
-  destruct (box st) as [|[lo m] t]; rewrite ?E1, ?E2; reflexivity.
+  rewrite E1, E2. reflexivity.
 Qed.
 
 Lemma can_fetch_wake_readers st : can_fetch (wake_readers st) = can_fetch st.
 Proof.
-  unfold can_fetch, wake_readers. simp_st. destruct (killed st); auto.
-  assert (E1 : forall lo, existsb (waits_le lo) (map (fun r => rd_set_woken r true) (rds st))
-                          = existsb (waits_le lo) (rds st)).
-  { intros lo. apply existsb_map_same. reflexivity. }
+  rewrite !can_fetch_cf. unfold wake_readers, cf. simp_st. destruct (killed st); auto.
+  assert (E1 : existsb (wb (box st)) (map (fun r => rd_set_woken r true) (rds st))
+               = existsb (wb (box st)) (rds st)).
+  { apply existsb_map_same. reflexivity. }
   assert (E2 : existsb drives (map (fun r => rd_set_woken r true) (rds st)) = existsb drives (rds st)).
   { apply existsb_map_same. reflexivity. }
-  destruct (box st) as [|[lo m] t]; rewrite ?E1, ?E2; reflexivity.
+  rewrite E1, E2. reflexivity.
 Qed.
 
 (* ---------- deliver ---------- *)
@@ -742,4 +751,137 @@ Proof.
     cbn [rds w_done k_pc killed set_kpc]. rewrite A2, A3. repeat split; auto. congruence.
   - destruct Hs as (d & _ & _ & ->). cbn [rds w_done k_pc killed set_wdone]. rewrite upd_length.
     repeat split; auto.
+Qed.
+
+(* ---------- _subscriber_waiting_for[i] is set exactly while subscriber i is inside wait_for ---------- *)
+Definition wt_ok (r : reader) : Prop :=
+  r_waiting r = match r_pc r with RWait n => Some n | _ => None end.
+Definition WT (st : state) : Prop := forall i r, nth_error (rds st) i = Some r -> wt_ok r.
+
+Definition rview (r : reader) : option nat * rpc := (r_waiting r, r_pc r).
+Definition same_rviews (st st' : state) : Prop := map rview (rds st') = map rview (rds st).
+
+Lemma WT_same st st' : same_rviews st st' -> WT st -> WT st'.
+Proof.
+  intros E H i r' Hi.
+  assert (Hv : nth_error (map rview (rds st')) i = Some (rview r')) by (rewrite nth_error_map, Hi; reflexivity).
+  rewrite E in Hv. apply nth_error_map_some in Hv. destruct Hv as (r & Hr & Er).
+  specialize (H _ _ Hr). unfold wt_ok, rview in *. injection Er as E1 E2. rewrite E1, E2. exact H.
+Qed.
+
+Lemma sr_refl st : same_rviews st st. Proof. reflexivity. Qed.
+Lemma sr_trans a b c : same_rviews a b -> same_rviews b c -> same_rviews a c.
+Proof. unfold same_rviews. congruence. Qed.
+Lemma sr_rds st st' : rds st' = rds st -> same_rviews st st'.
+Proof. unfold same_rviews. intros ->. reflexivity. Qed.
+Lemma sr_wake_readers st : same_rviews st (wake_readers st).
+Proof. unfold same_rviews, wake_readers. simp_st. rewrite map_map. reflexivity. Qed.
+Lemma sr_after_send cfg st c : same_rviews st (after_send cfg st c).
+Proof.
+  apply sr_rds. unfold after_send. destruct c; [reflexivity|]. destruct (c_lazy cfg); [reflexivity|].
+  unfold produce. destruct (src st) as [|[num m] rest]; reflexivity.
+Qed.
+Lemma sr_produce st : same_rviews st (produce st).
+Proof. apply sr_rds. unfold produce. destruct (src st) as [|[num m] rest]; reflexivity. Qed.
+Lemma sr_send_raises st c r : same_rviews st (send_raises st c r).
+Proof. apply sr_rds. unfold send_raises. destruct c; reflexivity. Qed.
+Lemma sr_do_push cfg st k m c : same_rviews st (do_push cfg st k m c).
+Proof.
+  unfold do_push. eapply sr_trans; [|apply sr_after_send].
+  eapply sr_trans; [|apply sr_wake_readers]. apply sr_rds. reflexivity.
+Qed.
+Lemma sr_kill_region st up : same_rviews st (kill_region st up).
+Proof.
+  assert (H : forall s, same_rviews s (wake_gate (wake_writer (wake_readers s)))).
+  { intros s. eapply sr_trans; [apply sr_wake_readers|]. apply sr_rds.
+    rewrite rds_wake_gate, rds_wake_writer. reflexivity. }
+  unfold kill_region. destruct up; simp_st; destruct (killed st); simp_st; try (apply sr_rds; reflexivity).
+  - eapply sr_trans; [|apply H]. apply sr_rds. reflexivity.
+  - eapply sr_trans; [|apply H]. apply sr_rds. reflexivity.
+Qed.
+
+Lemma WT_upd st st' i r' :
+  WT st -> rds st' = upd i r' (rds st) -> wt_ok r' -> WT st'.
+Proof.
+  intros H E Hr j x Hj. rewrite E in Hj. apply nth_error_upd in Hj.
+  destruct Hj as [(_ & -> & _)|(_ & Hj)]; [exact Hr|apply (H _ _ Hj)].
+Qed.
+
+Lemma wt_deliver wd r ms n' last : r_waiting r = None -> wt_ok (deliver wd r ms n' last).
+Proof.
+  intros Hw. unfold wt_ok. destruct (deliver_fields wd r ms n' last) as (_ & E & _). rewrite E, Hw.
+  pose proof (deliver_not_wait wd r ms n' last) as Hn.
+  destruct (r_pc (deliver wd r ms n' last)); auto. exfalso. apply (Hn n). reflexivity.
+Qed.
+
+Lemma WT_step cfg st t st' : WT st -> step cfg st t = Some st' -> WT st'.
+Proof.
+  intros HW Hs. apply step_inv in Hs. destruct t.
+  - destruct Hs as [_ ->]. eapply WT_same; [|exact HW]. unfold sender_step. destruct (s_pc st).
+    + unfold gate_enter. destruct (can_fetch st); [apply sr_produce|apply sr_rds; reflexivity].
+    + unfold gate_resume. destruct (can_fetch st); [apply sr_produce|apply sr_rds; reflexivity].
+    + unfold send_enter.
+      destruct (closed st); [apply sr_send_raises|].
+      destruct (fkilled st); [apply sr_send_raises|].
+      destruct (killed st); [apply sr_after_send|].
+      destruct (_ <? _); [apply sr_send_raises|].
+      destruct (can_write cfg st); [apply sr_do_push|apply sr_rds; reflexivity].
+    + unfold send_resume. destruct (can_write cfg st); [|apply sr_rds; reflexivity].
+      destruct (killed st); [|apply sr_do_push].
+      destruct (fkilled st); [apply sr_send_raises|apply sr_after_send].
+    + eapply sr_trans; [apply (sr_kill_region st true)|apply sr_rds; reflexivity].
+    + apply sr_refl.
+    + apply sr_refl.
+  - destruct Hs as (r & Hi & _ & ->). pose proof (HW _ _ Hi) as Hr. unfold reader_step.
+    assert (Hg : forall n, WT (grab cfg st i r n)).
+    { intros n. unfold grab. destruct (killed st).
+      - eapply WT_upd; [exact HW|reflexivity|]. unfold wt_ok. reflexivity.
+      - destruct (take_from (length (box st)) (box st) n) as [[ms n'] last].
+        set (r2 := rd_set_nread (rd_set_waiting r None) n').
+        set (st1 := set_rds st (upd i r2 (rds st))).
+        set (st2 := set_box st1 (gc (min_nread (rds st1)) (box st1))).
+        set (st3 := wake_writer (maybe_wake_gate cfg st2)).
+        assert (E1 : rds st3 = upd i r2 (rds st)).
+        { unfold st3. rewrite rds_wake_writer, rds_maybe_wake_gate. reflexivity. }
+        eapply (WT_upd st _ i (deliver (w_done st3) r2 ms n' last)); [exact HW| |].
+        + cbn [rds set_rds]. rewrite E1. apply upd_upd.
+        + apply wt_deliver. reflexivity. }
+    destruct (r_pc r) eqn:Epc; auto.
+    + unfold read_enter. destruct (next_ready st n); [apply Hg|].
+      eapply WT_upd; [exact HW| |].
+      * rewrite rds_maybe_wake_gate. reflexivity.
+      * unfold wt_ok. reflexivity.
+    + unfold read_resume. destruct (next_ready st n); [apply Hg|].
+      eapply WT_upd; [exact HW|reflexivity|]. unfold wt_ok in *. cbn. exact Hr.
+    + eapply WT_upd; [exact HW|reflexivity|]. apply wt_deliver. cbn.
+      unfold wt_ok in Hr. rewrite Epc in Hr. exact Hr.
+  - destruct Hs as (up & _ & ->). eapply WT_same; [|exact HW].
+    eapply sr_trans; [apply (sr_kill_region st up)|apply sr_rds; reflexivity].
+  - destruct Hs as (d & _ & _ & ->). eapply WT_same; [|exact HW]. apply sr_rds. reflexivity.
+Qed.
+
+Lemma WT_init cfg drives source killer nfut : WT (init cfg drives source killer nfut).
+Proof.
+  assert (H : WT (mkState [] 0 false false false (map init_reader drives) SGate false source killer (repeat false nfut))).
+  { intros i r Hi. cbn [rds] in Hi. apply nth_error_map_some in Hi. destruct Hi as (d & _ & ->). reflexivity. }
+  unfold init. destruct (c_lazy cfg); [exact H|]. eapply WT_same; [apply sr_produce|exact H].
+Qed.
+
+Lemma WT_reachable cfg drives source killer nfut sched st :
+  run cfg (init cfg drives source killer nfut) sched = Some st -> WT st.
+Proof.
+  intros Hrun. eapply run_invariant; [| |exact Hrun]; [intros; eapply WT_step; eauto|apply WT_init].
+Qed.
+
+(* the can_drive flags never change *)
+Lemma drives_reachable_gen cfg drives source killer nfut sched st :
+  run cfg (init cfg drives source killer nfut) sched = Some st -> map r_drive (rds st) = drives.
+Proof.
+  intros Hrun. eapply (run_invariant cfg (fun s => map r_drive (rds s) = drives)); [| |exact Hrun].
+  - intros s t s' H Hs. destruct (step_frame _ _ _ _ Hs) as (E & _). congruence.
+  - unfold init. destruct (c_lazy cfg).
+    + cbn [rds]. rewrite map_map. cbn. apply map_id.
+    + destruct (frame_produce (mkState [] 0 false false false (map init_reader drives) SGate false
+                                  source killer (repeat false nfut))) as (_ & E & _).
+      rewrite E. cbn [rds]. rewrite map_map. cbn. apply map_id.
 Qed.
